@@ -163,3 +163,69 @@ def query_samples(rng, V, C, n=12):
         c = rng.randrange(len(C))
         cv.append([c, rng.choice(C[c]) if rng.random() < 0.6 else rng.randrange(len(V))])
     return pairs, cf, cv
+
+
+# ------------------------------------------------------------------------------------------------
+# round 3: input representations, declared elements, in-place relabelling, hexahedra
+# ------------------------------------------------------------------------------------------------
+REPRS = ["list", "tuple", "nprow64", "nprow32", "from_arrays", "intcoords"]
+
+
+def declared_elements(rng, C, k=3):
+    """some triangles / sides of the cells declared by the user before the cells (arbitrary rotation and orientation)"""
+    tris = [list(t) for t in face_cells(C).keys()]
+    faces = []
+    for t in rng.sample(tris, min(k, len(tris))):
+        rng.shuffle(t); faces.append(list(t))
+    edges, seen = [], set()
+    for t in rng.sample(tris, min(k, len(tris))):
+        e = rng.sample(t, 2)
+        if tuple(sorted(e)) in seen: continue          # a declared edge is declared once (duplicates are C02's business)
+        seen.add(tuple(sorted(e))); edges.append([e[0], e[1]])
+    return faces, edges
+
+
+def random_swaps(rng, C, k=2):
+    """(cell, i, j): exchange the i-th and j-th vertex of a cell (changes the cell's orientation and its local numbering)"""
+    out = []
+    for _ in range(k):
+        i, j = rng.sample(range(4), 2)
+        out.append([rng.randrange(len(C)), i, j])
+    return out
+
+
+def apply_swaps(C, swaps):
+    C = [list(c) for c in C]
+    for ci, i, j in swaps:
+        C[ci][i], C[ci][j] = C[ci][j], C[ci][i]
+    return C
+
+
+def hex_grid(rng, nx, ny, nz):
+    """hexahedral grid; a cell is (bottom quad v1..v4, top quad v5..v8) as in mouette's hexahedron facet table"""
+    idx = lambda i, j, k: (i * (ny + 1) + j) * (nz + 1) + k
+    V = [[float(i), float(j), float(k)] for i in range(nx + 1) for j in range(ny + 1) for k in range(nz + 1)]
+    C = []
+    for i in range(nx):
+        for j in range(ny):
+            for k in range(nz):
+                C.append([idx(i, j, k), idx(i + 1, j, k), idx(i + 1, j + 1, k), idx(i, j + 1, k),
+                          idx(i, j, k + 1), idx(i + 1, j, k + 1), idx(i + 1, j + 1, k + 1), idx(i, j + 1, k + 1)])
+    rng.shuffle(C)
+    if rng.random() < 0.5:
+        perm = list(range(len(V))); rng.shuffle(perm)
+        NV = [None] * len(V)
+        for o, n in enumerate(perm): NV[n] = V[o]
+        V = NV; C = [[perm[v] for v in c] for c in C]
+    return {"V": V, "C": C, "tag": "hexgrid"}
+
+
+HEX_FACES = [(0, 1, 2, 3), (4, 5, 6, 7), (0, 3, 7, 4), (0, 1, 5, 4), (1, 2, 6, 5), (2, 3, 7, 6)]
+
+
+def hex_face_cells(C):
+    d = {}
+    for ic, c in enumerate(C):
+        for f in HEX_FACES:
+            d.setdefault(tuple(sorted(c[i] for i in f)), []).append(ic)
+    return d
